@@ -4,6 +4,7 @@ import (
 	"fmt"
 	"go/token"
 	"go/types"
+	"sort"
 	"os"
 	"strings"
 
@@ -540,56 +541,94 @@ func countFactor(y ssa.Value, depth int) ssa.Value {
 // before it reaches strings.Repeat (which panics when the output length overflows).
 func padBoundRule(c *core.Check, r *core.Rule) {
 	p := c.Prog
-	fn := p.Method("css/counters", "CounterStyle", "renderValue")
-	if fn == nil {
-		r.Anchor("css/counters.CounterStyle.renderValue")
-		return
-	}
 	n := 0
-	core.Instrs(fn, func(in ssa.Instruction) {
-		call, ok := in.(*ssa.Call)
-		if !ok || call.Call.StaticCallee() == nil || call.Call.StaticCallee().Name() != "Repeat" || len(call.Call.Args) != 2 {
-			return
+	for _, fn := range append(p.FuncsOfPkg("css/counters"), p.FuncsOfPkg("text")...) {
+		if fn.Blocks == nil {
+			continue
 		}
-		n++
-		cnt := call.Call.Args[1]
-		bounded, how := false, "the count is not the merge of a constant and a value tested against it"
-		if phi, ok := cnt.(*ssa.Phi); ok {
-			for i, e := range phi.Edges {
-				k, isK := core.ConstInt(e)
-				if !isK || k <= 0 {
-					continue
-				}
-				// the other edges come from a block that tested the value against the constant
-				okAll := true
-				for j, e2 := range phi.Edges {
-					if j == i {
+		fn := fn
+		core.Instrs(fn, func(in ssa.Instruction) {
+			call, ok := in.(*ssa.Call)
+			if !ok || call.Call.StaticCallee() == nil || call.Call.StaticCallee().String() != "strings.Repeat" || len(call.Call.Args) != 2 {
+				return
+			}
+			n++
+			cnt := call.Call.Args[1]
+			bounded, how := false, "the count is neither the merge of a constant and a value tested against it, nor tested against a constant on every path to the call"
+			if phi, ok := cnt.(*ssa.Phi); ok {
+				for i, e := range phi.Edges {
+					k, isK := core.ConstInt(e)
+					if !isK || k <= 0 {
 						continue
 					}
-					pred := phi.Block().Preds[j]
-					ifi, isIf := pred.Instrs[len(pred.Instrs)-1].(*ssa.If)
-					if !isIf {
-						okAll = false
-						continue
+					// the other edges come from a block that tested the value against the constant
+					okAll := true
+					for j, e2 := range phi.Edges {
+						if j == i {
+							continue
+						}
+						pred := phi.Block().Preds[j]
+						ifi, isIf := pred.Instrs[len(pred.Instrs)-1].(*ssa.If)
+						if !isIf {
+							okAll = false
+							continue
+						}
+						cmp, isCmp := ifi.Cond.(*ssa.BinOp)
+						if !isCmp || cmp.X != e2 {
+							okAll = false
+							continue
+						}
+						if kk, isKK := core.ConstInt(cmp.Y); !isKK || kk != k || (cmp.Op != token.GTR && cmp.Op != token.GEQ) || pred.Succs[1] != phi.Block() {
+							okAll = false
+						}
 					}
-					cmp, isCmp := ifi.Cond.(*ssa.BinOp)
-					if !isCmp || cmp.X != e2 {
-						okAll = false
-						continue
+					if okAll {
+						bounded, how = true, fmt.Sprintf("clamped at %d", k)
 					}
-					if kk, isKK := core.ConstInt(cmp.Y); !isKK || kk != k || (cmp.Op != token.GTR && cmp.Op != token.GEQ) || pred.Succs[1] != phi.Block() {
-						okAll = false
-					}
-				}
-				if okAll {
-					bounded, how = true, fmt.Sprintf("clamped at %d", k)
 				}
 			}
-		}
-		r.Cond(bounded, "css/counters.renderValue | strings.Repeat(pad symbol, n)", p.Pos(call.Pos()), how, "the pad length of the document's @counter-style reaches strings.Repeat unbounded ("+how+"): `pad: 9000000000000000000 \"xx\"` panics with an output length overflow")
-	})
-	if n == 0 {
-		r.Anchor("renderValue: strings.Repeat of the pad symbol")
+			if !bounded {
+				// the call is reachable only when `count > K` (or >=) was false, or `count < K` (or <=) true
+				var atoms []ssa.Value
+				pol := map[ssa.Value]bool{}
+				for _, a := range core.CondAtoms(fn) {
+					bo, ok := a.(*ssa.BinOp)
+					if !ok || bo.X != cnt {
+						continue
+					}
+					if k, isK := core.ConstInt(bo.Y); !isK || k <= 0 || k > 1<<20 {
+						continue
+					}
+					switch bo.Op {
+					case token.GTR, token.GEQ:
+						atoms, pol[a] = append(atoms, a), false
+					case token.LSS, token.LEQ:
+						atoms, pol[a] = append(atoms, a), true
+					}
+				}
+				if len(atoms) > 0 {
+					ok, _ := core.GuardedBy(fn, call.Block(), atoms, func(m map[ssa.Value]bool) bool {
+						for a, v := range m {
+							if v == pol[a] {
+								return true
+							}
+						}
+						return false
+					})
+					if ok {
+						bounded, how = true, "reached only with the count at most a constant"
+					}
+				}
+			}
+			key := core.FuncName(fn) + " | " + p.StmtTextAt(fn, call.Pos())
+			if fn.Name() == "renderValue" {
+				key = "css/counters.renderValue | strings.Repeat(pad symbol, n)"
+			}
+			r.Cond(bounded, key, p.Pos(call.Pos()), how, "a number of the document (pad length of its @counter-style, value of its counter, tab-size) reaches strings.Repeat unbounded ("+how+"): `pad: 9000000000000000000 \"xx\"`, or a symbolic counter with a value of 9000000000000000000, panics with an output length overflow; smaller ones exhaust the memory")
+		})
+	}
+	if n < 4 {
+		r.Anchor(fmt.Sprintf("strings.Repeat calls of css/counters and text: %d found, 4 confirmed by reading (pad, symbolic, additive, tab size)", n))
 	}
 }
 
@@ -609,4 +648,90 @@ func sideTupleRule(c *core.Check, r *core.Rule, pkg string, floor int) {
 	if len(as) < floor*2/3 {
 		r.Unknown("side-named tuple assignments in "+pkg, "-", fmt.Sprintf("%d found, %d on the tree this rule was written for", len(as), floor))
 	}
+}
+
+// autoRangeRule: the `auto` range of a counter style is unbounded for the systems that represent every integer.
+// The last resort of every failure in renderValue is the decimal style, re-entered with a fresh visited set; it ends
+// the recursion only because decimal (numeric system, auto range) accepts every integer.  With a narrower automatic
+// range a counter outside it (counter-reset: c 3000000000) falls back to decimal, which refuses it and falls back to
+// decimal, until the stack is exhausted.
+func autoRangeRule(c *core.Check, r *core.Rule) {
+	p := c.Prog
+	fn := p.Method("css/counters", "CounterStyle", "renderValue")
+	if fn == nil {
+		r.Anchor("css/counters.CounterStyle.renderValue")
+		return
+	}
+	consts := func(v ssa.Value) (set map[int64]bool, exact bool) {
+		set, exact = map[int64]bool{}, true
+		seen := map[ssa.Value]bool{}
+		var walk func(v ssa.Value)
+		walk = func(v ssa.Value) {
+			if seen[v] {
+				return
+			}
+			seen[v] = true
+			if phi, ok := v.(*ssa.Phi); ok {
+				for _, e := range phi.Edges {
+					walk(e)
+				}
+				return
+			}
+			if k, ok := core.ConstInt(v); ok {
+				set[k] = true
+				return
+			}
+			exact = false
+		}
+		walk(v)
+		return
+	}
+	found := 0
+	core.Instrs(fn, func(in ssa.Instruction) {
+		st, ok := in.(*ssa.Store)
+		if !ok {
+			return
+		}
+		ia, ok := st.Addr.(*ssa.IndexAddr)
+		if !ok {
+			return
+		}
+		pt, ok := ia.X.Type().Underlying().(*types.Pointer)
+		if !ok {
+			return
+		}
+		arr, ok := pt.Elem().Underlying().(*types.Array)
+		if !ok || arr.Len() != 2 {
+			return
+		}
+		idx, ok := core.ConstInt(ia.Index)
+		if !ok {
+			return
+		}
+		set, exact := consts(st.Val)
+		if !exact || len(set) == 0 {
+			return // a range copied from the descriptors
+		}
+		found++
+		const minInt, maxInt = -1 << 63, 1<<63 - 1
+		if idx == 0 {
+			r.Cond(set[minInt], "css/counters.renderValue | lower bound of the automatic range", p.Pos(st.Pos()), "the smallest integer is one of the lower bounds (the systems defined for every integer)",
+				fmt.Sprintf("the lower bounds of the automatic range are %v: decimal, the last resort, refuses the integers below and falls back to itself until the stack is exhausted", keysOf(set)))
+		} else {
+			r.Cond(len(set) == 1 && set[maxInt], "css/counters.renderValue | upper bound of the automatic range", p.Pos(st.Pos()), "the largest integer",
+				fmt.Sprintf("the upper bounds of the automatic range are %v: decimal, the last resort, refuses the integers above (counter-reset: c 3000000000) and falls back to itself until the stack is exhausted", keysOf(set)))
+		}
+	})
+	if found != 2 {
+		r.Anchor(fmt.Sprintf("renderValue: the two constant bounds of the automatic range (%d found)", found))
+	}
+}
+
+func keysOf(m map[int64]bool) []int64 {
+	var out []int64
+	for k := range m {
+		out = append(out, k)
+	}
+	sort.Slice(out, func(i, j int) bool { return out[i] < out[j] })
+	return out
 }
